@@ -10,6 +10,10 @@
      FProcV                the `;` of a local variable declaration
      FProcC                the `}` that closes a procedure body
      FType                 the `;` of a type declaration
+     FAsgL, FAsgR, FIfC, FIfEC, FWhlC, FCalA (fargs)
+                           a fault inside an expression of the statement - the left- / right-hand side of an assignment, the
+                           condition of an if / while, an argument of a call; the faulty expressions are Proofs/SynFaultsE.v:
+                           the `)` of a parenthesis (FaParC) or the `]` of an index (VIdxC), at any depth
 
      orig_*     the VALID program the faulty one stems from: the token put back, with an empty comment slot in front of it
                 (comments that stood in front of the deleted token now stand in front of the next one and belong to ITS slot)
@@ -20,16 +24,22 @@
                   - the node whose closing token is missing carries ONE error, msg_of_kind with the EMPTY range (g, g),
                   - every range / Reference offset behind the gap is one smaller;
                 fx0_* := fxg_* e_none is the same tree without the error (used to talk about the analysis)
-     after_*    the tokens behind the gap (to say: behind a missing `;` there is no `;` - otherwise nothing is missing)
+     after_*    the tokens behind the gap (for the condition `gap_open` on the token behind the gap, Proofs/SynFaultsE.v)
 
-   Proofs: SynFaultsStmt.v (statements), SynFaultsProg.v (declarations, programs, parse), SynFaultsText.v (errors, texts),
-   SynFaultsSem.v (no semantic follow-up). *)
+   Proofs: SynFaultsEP.v (expressions), SynFaultsArgs.v (argument lists), SynFaultsStmt.v (statements), SynFaultsProg.v
+   (declarations, programs, parse), SynFaultsText.v (errors, texts), SynFaultsSem.v (no semantic follow-up). *)
 From Coq Require Import List Lia Arith Bool.
 From Spl Require Import Spec.Grammar Model.Parser.
+From Spl Require Export Proofs.SynFaultsE.
 Import ListNotations.
 Local Open Scope nat_scope.
 
 (* ---- the faulty syntax ---- *)
+(* an argument list with the fault inside one argument *)
+Inductive fargs :=
+| FArgH (e : fcmp) (l : list (cs * acmp))                                                  (* in the first argument *)
+| FArgT (e0 : acmp) (pre : list (cs * acmp)) (c : cs) (e : fcmp) (post : list (cs * acmp)). (* e0 pre c , e post *)
+
 Inductive fstmt :=
 | FAsg (v : avar) (c1 : cs) (e : acmp)                                  (* v c1 := e            `;` missing *)
 | FCal (c1 : cs) (f : text) (c2 : cs) (a : aargs) (c3 : cs)             (* c1 f c2 ( a c3 )     `;` missing *)
@@ -37,6 +47,12 @@ Inductive fstmt :=
 | FIfP (c1 c2 : cs) (e : acmp) (t : astmt)                              (* c1 if c2 ( e  t      `)` missing *)
 | FIfPE (c1 c2 : cs) (e : acmp) (t : astmt) (c4 : cs) (s : astmt)       (* c1 if c2 ( e  t c4 else s *)
 | FWhlP (c1 c2 : cs) (e : acmp) (b : astmt)                             (* c1 while c2 ( e  b   `)` missing *)
+| FAsgL (v : fvar) (c1 : cs) (e : acmp) (c2 : cs)                       (* fault in the left-hand side (an index) *)
+| FAsgR (v : avar) (c1 : cs) (e : fcmp) (c2 : cs)                       (* fault in the right-hand side *)
+| FIfC (c1 c2 : cs) (e : fcmp) (c3 : cs) (t : astmt)                    (* fault in the condition *)
+| FIfEC (c1 c2 : cs) (e : fcmp) (c3 : cs) (t : astmt) (c4 : cs) (s : astmt)
+| FWhlC (c1 c2 : cs) (e : fcmp) (c3 : cs) (b : astmt)
+| FCalA (c1 : cs) (f : text) (c2 : cs) (a : fargs) (c3 c4 : cs)         (* fault in an argument of a call *)
 | FIfT (c1 c2 : cs) (e : acmp) (c3 : cs) (t : fstmt)                    (* if without else, fault in the branch *)
 | FIfE1 (c1 c2 : cs) (e : acmp) (c3 : cs) (t : fstmt) (c4 : cs) (s : astmt)   (* fault in the then-branch *)
 | FIfE2 (c1 c2 : cs) (e : acmp) (c3 : cs) (t : astmt) (c4 : cs) (s : fstmt)   (* fault in the else-branch *)
@@ -64,6 +80,28 @@ Inductive fdecl :=
 Record fprog := { fp_pre : list adecl; fp_decl : fdecl; fp_post : list adecl; fp_ceof : cs }.
 
 (* ---- the valid program it stems from ---- *)
+Definition orig_args (a : fargs) : aargs :=
+  match a with
+  | FArgH e l => Some (orig_cmp e, l)
+  | FArgT e0 pre c e post => Some (e0, pre ++ (c, orig_cmp e) :: post)
+  end.
+Definition gk_args (a : fargs) : kind := match a with FArgH e _ | FArgT _ _ _ e _ => gk_cmp e end.
+Definition ffl_args (a : fargs) : list kind :=
+  match a with
+  | FArgH e l => ffl_cmp e ++ fl_tail fl_cmp l
+  | FArgT e0 pre c e post => fl_cmp e0 ++ fl_tail fl_cmp pre ++ cm c ++ Comma :: ffl_cmp e ++ fl_tail fl_cmp post
+  end.
+Definition gap_args (a : fargs) : nat :=
+  match a with
+  | FArgH e _ => gap_cmp e
+  | FArgT e0 pre c e _ => len (fl_cmp e0) + len (fl_tail fl_cmp pre) + len c + 1 + gap_cmp e
+  end.
+Definition after_args (a : fargs) (rest : list kind) : list kind :=
+  match a with
+  | FArgH e l => after_cmp e (fl_tail fl_cmp l ++ rest)
+  | FArgT _ _ _ e post => after_cmp e (fl_tail fl_cmp post ++ rest)
+  end.
+
 Fixpoint orig_stmt (s : fstmt) : astmt :=
   match s with
   | FAsg v c1 e => SAsg v c1 e []
@@ -72,6 +110,12 @@ Fixpoint orig_stmt (s : fstmt) : astmt :=
   | FIfP c1 c2 e t => SIfT c1 c2 e [] t
   | FIfPE c1 c2 e t c4 s' => SIfE c1 c2 e [] t c4 s'
   | FWhlP c1 c2 e b => SWhl c1 c2 e [] b
+  | FAsgL v c1 e c2 => SAsg (orig_var v) c1 e c2
+  | FAsgR v c1 e c2 => SAsg v c1 (orig_cmp e) c2
+  | FIfC c1 c2 e c3 t => SIfT c1 c2 (orig_cmp e) c3 t
+  | FIfEC c1 c2 e c3 t c4 s' => SIfE c1 c2 (orig_cmp e) c3 t c4 s'
+  | FWhlC c1 c2 e c3 b => SWhl c1 c2 (orig_cmp e) c3 b
+  | FCalA c1 f c2 a c3 c4 => SCal c1 f c2 (orig_args a) c3 c4
   | FIfT c1 c2 e c3 t => SIfT c1 c2 e c3 (orig_stmt t)
   | FIfE1 c1 c2 e c3 t c4 s' => SIfE c1 c2 e c3 (orig_stmt t) c4 s'
   | FIfE2 c1 c2 e c3 t c4 s' => SIfE c1 c2 e c3 t c4 (orig_stmt s')
@@ -84,13 +128,13 @@ with orig_stmts (b : fstmts) : astmts :=
   | FLater s r => SCons s (orig_stmts r)
   end.
 
-Definition fvar (d1 d2 : cs) (y : text) (d3 : cs) (t : atype) : avardecl :=
+Definition fvdecl (d1 d2 : cs) (y : text) (d3 : cs) (t : atype) : avardecl :=
   {| v_c1 := d1; v_c2 := d2; v_x := y; v_c3 := d3; v_t := t; v_c4 := [] |}.
 
 Definition orig_decl (d : fdecl) : adecl :=
   match d with
   | FProc c1 c2 x c3 ps c4 c5 vs b c6 => DProc c1 c2 x c3 ps c4 c5 vs (orig_stmts b) c6
-  | FProcV c1 c2 x c3 ps c4 c5 vs1 d1 d2 y d3 t vs2 b c6 => DProc c1 c2 x c3 ps c4 c5 (vs1 ++ fvar d1 d2 y d3 t :: vs2) b c6
+  | FProcV c1 c2 x c3 ps c4 c5 vs1 d1 d2 y d3 t vs2 b c6 => DProc c1 c2 x c3 ps c4 c5 (vs1 ++ fvdecl d1 d2 y d3 t :: vs2) b c6
   | FProcC c1 c2 x c3 ps c4 c5 vs b => DProc c1 c2 x c3 ps c4 c5 vs b []
   | FType c1 c2 x c3 t => DType c1 c2 x c3 t []
   end.
@@ -103,6 +147,9 @@ Fixpoint gk_stmt (s : fstmt) : kind :=
   match s with
   | FAsg _ _ _ | FCal _ _ _ _ _ => Semic
   | FCalP _ _ _ _ _ | FIfP _ _ _ _ | FIfPE _ _ _ _ _ _ | FWhlP _ _ _ _ => RParen
+  | FAsgL v _ _ _ => gk_var v
+  | FAsgR _ _ e _ | FIfC _ _ e _ _ | FIfEC _ _ e _ _ _ _ | FWhlC _ _ e _ _ => gk_cmp e
+  | FCalA _ _ _ a _ _ => gk_args a
   | FIfT _ _ _ _ t | FIfE1 _ _ _ _ t _ _ | FIfE2 _ _ _ _ _ _ t | FWhl _ _ _ _ t => gk_stmt t
   | FBlk _ b _ => gk_stmts b
   end
@@ -119,14 +166,6 @@ Definition gk_decl (d : fdecl) : kind :=
 
 Definition gk_prog (p : fprog) : kind := gk_decl (fp_decl p).
 
-Definition msg_of_kind (k : kind) : pmsg :=
-  match k with
-  | Semic => MissingTrailingSemic
-  | RParen => MissingClosing 41%N
-  | RBracket => MissingClosing 93%N
-  | _ => MissingClosing 125%N
-  end.
-
 (* ---- its tokens ---- *)
 Fixpoint ffl_stmt (s : fstmt) : list kind :=
   match s with
@@ -136,6 +175,12 @@ Fixpoint ffl_stmt (s : fstmt) : list kind :=
   | FIfP c1 c2 e t => cm c1 ++ KIf :: cm c2 ++ LParen :: fl_cmp e ++ fl_stmt t
   | FIfPE c1 c2 e t c4 s' => cm c1 ++ KIf :: cm c2 ++ LParen :: fl_cmp e ++ fl_stmt t ++ cm c4 ++ KElse :: fl_stmt s'
   | FWhlP c1 c2 e b => cm c1 ++ KWhile :: cm c2 ++ LParen :: fl_cmp e ++ fl_stmt b
+  | FAsgL v c1 e c2 => ffl_var v ++ cm c1 ++ Assign :: fl_cmp e ++ cm c2 ++ [Semic]
+  | FAsgR v c1 e c2 => fl_var v ++ cm c1 ++ Assign :: ffl_cmp e ++ cm c2 ++ [Semic]
+  | FIfC c1 c2 e c3 t => cm c1 ++ KIf :: cm c2 ++ LParen :: ffl_cmp e ++ cm c3 ++ RParen :: fl_stmt t
+  | FIfEC c1 c2 e c3 t c4 s' => cm c1 ++ KIf :: cm c2 ++ LParen :: ffl_cmp e ++ cm c3 ++ RParen :: fl_stmt t ++ cm c4 ++ KElse :: fl_stmt s'
+  | FWhlC c1 c2 e c3 b => cm c1 ++ KWhile :: cm c2 ++ LParen :: ffl_cmp e ++ cm c3 ++ RParen :: fl_stmt b
+  | FCalA c1 f c2 a c3 c4 => cm c1 ++ Ident f :: cm c2 ++ LParen :: ffl_args a ++ cm c3 ++ RParen :: cm c4 ++ [Semic]
   | FIfT c1 c2 e c3 t => cm c1 ++ KIf :: cm c2 ++ LParen :: fl_cmp e ++ cm c3 ++ RParen :: ffl_stmt t
   | FIfE1 c1 c2 e c3 t c4 s' =>
       cm c1 ++ KIf :: cm c2 ++ LParen :: fl_cmp e ++ cm c3 ++ RParen :: ffl_stmt t ++ cm c4 ++ KElse :: fl_stmt s'
@@ -151,7 +196,7 @@ with ffl_stmts (b : fstmts) : list kind :=
   end.
 
 (* d1 var d2 y d3 : t   (no `;`) *)
-Definition ffl_var (d1 d2 : cs) (y : text) (d3 : cs) (t : atype) : list kind :=
+Definition ffl_vdecl (d1 d2 : cs) (y : text) (d3 : cs) (t : atype) : list kind :=
   cm d1 ++ KVar :: cm d2 ++ Ident y :: cm d3 ++ Colon :: fl_type t.
 
 (* c1 proc c2 x c3 ( ps c4 ) c5 { *)
@@ -163,7 +208,7 @@ Definition ffl_decl (d : fdecl) : list kind :=
   | FProc c1 c2 x c3 ps c4 c5 vs b c6 =>
       fl_prochead c1 c2 x c3 ps c4 c5 ++ flat_map fl_vardecl vs ++ ffl_stmts b ++ cm c6 ++ [RCurly]
   | FProcV c1 c2 x c3 ps c4 c5 vs1 d1 d2 y d3 t vs2 b c6 =>
-      fl_prochead c1 c2 x c3 ps c4 c5 ++ flat_map fl_vardecl vs1 ++ ffl_var d1 d2 y d3 t ++ flat_map fl_vardecl vs2 ++
+      fl_prochead c1 c2 x c3 ps c4 c5 ++ flat_map fl_vardecl vs1 ++ ffl_vdecl d1 d2 y d3 t ++ flat_map fl_vardecl vs2 ++
       fl_stmts b ++ cm c6 ++ [RCurly]
   | FProcC c1 c2 x c3 ps c4 c5 vs b => fl_prochead c1 c2 x c3 ps c4 c5 ++ flat_map fl_vardecl vs ++ fl_stmts b
   | FType c1 c2 x c3 t => cm c1 ++ KType :: cm c2 ++ Ident x :: cm c3 ++ EqT :: fl_type t
@@ -181,6 +226,10 @@ Fixpoint gap_stmt (s : fstmt) : nat :=
   | FAsg _ _ _ | FCal _ _ _ _ _ => len (ffl_stmt s) - 1
   | FCalP c1 f c2 a c4 => o_cond c1 c2 + len (fl_sep fl_cmp a) - 1
   | FIfP c1 c2 e _ | FIfPE c1 c2 e _ _ _ | FWhlP c1 c2 e _ => o_cond c1 c2 + len (fl_cmp e) - 1
+  | FAsgL v _ _ _ => gap_var v
+  | FAsgR v c1 e _ => len (fl_var v) + len c1 + 1 + gap_cmp e
+  | FIfC c1 c2 e _ _ | FIfEC c1 c2 e _ _ _ _ | FWhlC c1 c2 e _ _ => o_cond c1 c2 + gap_cmp e
+  | FCalA c1 _ c2 a _ _ => o_cond c1 c2 + gap_args a
   | FIfT c1 c2 e c3 t | FIfE1 c1 c2 e c3 t _ _ | FWhl c1 c2 e c3 t => o_cond c1 c2 + len (fl_cmp e) + len c3 + 1 + gap_stmt t
   | FIfE2 c1 c2 e c3 t c4 s' => o_cond c1 c2 + len (fl_cmp e) + len c3 + 1 + len (fl_stmt t) + len c4 + 1 + gap_stmt s'
   | FBlk c1 b _ => len c1 + 1 + gap_stmts b
@@ -195,7 +244,7 @@ Definition gap_decl (d : fdecl) : nat :=
   match d with
   | FProc c1 c2 x c3 ps c4 c5 vs b c6 => len (fl_prochead c1 c2 x c3 ps c4 c5) + len (flat_map fl_vardecl vs) + gap_stmts b
   | FProcV c1 c2 x c3 ps c4 c5 vs1 d1 d2 y d3 t vs2 b c6 =>
-      len (fl_prochead c1 c2 x c3 ps c4 c5) + len (flat_map fl_vardecl vs1) + len (ffl_var d1 d2 y d3 t) - 1
+      len (fl_prochead c1 c2 x c3 ps c4 c5) + len (flat_map fl_vardecl vs1) + len (ffl_vdecl d1 d2 y d3 t) - 1
   | FProcC _ _ _ _ _ _ _ _ _ | FType _ _ _ _ _ => len (ffl_decl d) - 1
   end.
 
@@ -209,6 +258,11 @@ Fixpoint after_stmt (s : fstmt) (rest : list kind) : list kind :=
   | FCalP _ _ _ _ c4 => cm c4 ++ Semic :: rest
   | FIfP _ _ _ t | FWhlP _ _ _ t => fl_stmt t ++ rest
   | FIfPE _ _ _ t c4 s' => fl_stmt t ++ cm c4 ++ KElse :: fl_stmt s' ++ rest
+  | FAsgL v c1 e c2 => after_var v (cm c1 ++ Assign :: fl_cmp e ++ cm c2 ++ Semic :: rest)
+  | FAsgR _ _ e c2 => after_cmp e (cm c2 ++ Semic :: rest)
+  | FIfC _ _ e c3 t | FWhlC _ _ e c3 t => after_cmp e (cm c3 ++ RParen :: fl_stmt t ++ rest)
+  | FIfEC _ _ e c3 t c4 s' => after_cmp e (cm c3 ++ RParen :: fl_stmt t ++ cm c4 ++ KElse :: fl_stmt s' ++ rest)
+  | FCalA _ _ _ a c3 c4 => after_args a (cm c3 ++ RParen :: cm c4 ++ Semic :: rest)
   | FIfT _ _ _ _ t | FWhl _ _ _ _ t => after_stmt t rest
   | FIfE1 _ _ _ _ t c4 s' => after_stmt t (cm c4 ++ KElse :: fl_stmt s' ++ rest)
   | FIfE2 _ _ _ _ _ _ s' => after_stmt s' rest
@@ -230,32 +284,25 @@ Definition after_decl (d : fdecl) (rest : list kind) : list kind :=
 Definition after_prog (p : fprog) : list kind :=
   after_decl (fp_decl p) (flat_map fl_decl (fp_post p) ++ cm (fp_ceof p) ++ [Eof]).
 
-(* the first token that is not a comment *)
-Fixpoint next_sig (l : list kind) : option kind :=
-  match l with
-  | [] => None
-  | Comment _ :: r => next_sig r
-  | k :: _ => Some k
-  end.
-
-(* behind a missing `;` there is no `;`: with a `;` there, nothing would be missing (the `;` of an empty statement
-   would close the statement / declaration).  No condition for the other closing tokens. *)
-Definition gap_open (k : kind) (l : list kind) : bool :=
-  match k, next_sig l with Semic, Some Semic => false | _, _ => true end.
-
-(* a single-fault variant: the original is a valid program (no dangling else), and the gap is a gap *)
+(* a single-fault variant: the original is a valid program (no dangling else), and the gap is a gap (SynFaultsE.gap_open:
+   the token behind it is not the missing token itself, and does not continue an expression in front of the gap) *)
 Definition fprog_ok (p : fprog) : bool := prog_ok (orig_prog p) && gap_open (gk_prog p) (after_prog p).
 
 (* ---- the mandated tree ---- *)
-Definition gap_err (m : pmsg) (g : nat) : err := {| e_s := g; e_e := g; e_m := EParse m |}.
-Definition e_real (m : pmsg) (g : nat) : list err := [gap_err m g].
-Definition e_none (m : pmsg) (g : nat) : list err := [].
-
 Section Tree.
 Variable E : pmsg -> nat -> list err.
 
-(* the node of n tokens at o whose closing token of kind k is missing behind token g *)
-Definition einfo (k : kind) (o n g : nat) : info := {| i_s := o; i_e := o + n; i_errs := E (msg_of_kind k) g |}.
+Notation einfo := (einfo E).
+
+(* every argument is a Reference at its own first token *)
+Definition fxg_args (o : nat) (a : fargs) : list (expr * nat) :=
+  match a with
+  | FArgH e l => (fxg_cmp E 0 e, o) :: x_tail fl_cmp (x_cmp 0) (o + len (ffl_cmp e)) l
+  | FArgT e0 pre c e post =>
+      let o2 := o + len (fl_cmp e0) + len (fl_tail fl_cmp pre) in
+      (x_cmp 0 e0, o) :: x_tail fl_cmp (x_cmp 0) (o + len (fl_cmp e0)) pre ++
+      (fxg_cmp E 0 e, o2 + len c + 1) :: x_tail fl_cmp (x_cmp 0) (o2 + len c + 1 + len (ffl_cmp e)) post
+  end.
 
 Fixpoint fxg_stmt (o : nat) (s : fstmt) : stmt :=
   match s with
@@ -276,6 +323,22 @@ Fixpoint fxg_stmt (o : nat) (s : fstmt) : stmt :=
   | FWhlP c1 c2 e b =>
       let o_e := o + o_cond c1 c2 in
       SWhile (Some (x_cmp 0 e, o_e)) (Some (x_stmt 0 b, o_e + len (fl_cmp e))) (einfo RParen o (len (ffl_stmt s)) (o + gap_stmt s))
+  | FAsgL v c1 e c2 =>
+      SAssign (fxg_var E o v) (Some (x_cmp 0 e, o + len (ffl_var v) + len c1 + 1)) (mkinfo o (o + len (ffl_stmt s)))
+  | FAsgR v c1 e c2 =>
+      SAssign (x_var o v) (Some (fxg_cmp E 0 e, o + len (fl_var v) + len c1 + 1)) (mkinfo o (o + len (ffl_stmt s)))
+  | FIfC c1 c2 e c3 t =>
+      let o_e := o + o_cond c1 c2 in
+      SIf (Some (fxg_cmp E 0 e, o_e)) (Some (x_stmt 0 t, o_e + len (ffl_cmp e) + len c3 + 1)) None (mkinfo o (o + len (ffl_stmt s)))
+  | FIfEC c1 c2 e c3 t c4 s' =>
+      let o_e := o + o_cond c1 c2 in
+      let o_t := o_e + len (ffl_cmp e) + len c3 + 1 in
+      SIf (Some (fxg_cmp E 0 e, o_e)) (Some (x_stmt 0 t, o_t)) (Some (x_stmt 0 s', o_t + len (fl_stmt t) + len c4 + 1))
+          (mkinfo o (o + len (ffl_stmt s)))
+  | FWhlC c1 c2 e c3 b =>
+      let o_e := o + o_cond c1 c2 in
+      SWhile (Some (fxg_cmp E 0 e, o_e)) (Some (x_stmt 0 b, o_e + len (ffl_cmp e) + len c3 + 1)) (mkinfo o (o + len (ffl_stmt s)))
+  | FCalA c1 f c2 a c3 c4 => SCall (x_ident o c1 f) (fxg_args (o + o_cond c1 c2) a) (mkinfo o (o + len (ffl_stmt s)))
   | FIfT c1 c2 e c3 t =>
       let o_e := o + o_cond c1 c2 in
       let o_t := o_e + len (fl_cmp e) + len c3 + 1 in
@@ -303,8 +366,8 @@ with fxg_stmts (o : nat) (b : fstmts) : list (stmt * nat) :=
   end.
 
 (* the variable declaration without its `;`: a Reference, its own range starts at 0 *)
-Definition fxg_var (d1 d2 : cs) (y : text) (d3 : cs) (t : atype) : vardecl :=
-  let n := len (ffl_var d1 d2 y d3 t) in
+Definition fxg_vdecl (d1 d2 : cs) (y : text) (d3 : cs) (t : atype) : vardecl :=
+  let n := len (ffl_vdecl d1 d2 y d3 t) in
   VValid d1 (Some (x_ident (len d1 + 1) d2 y)) (Some (x_type 0 t, len d1 + 1 + len d2 + 1 + len d3 + 1)) (einfo Semic 0 n (n - 1)).
 
 Definition fxg_decl (d : fdecl) : gdecl :=
@@ -319,10 +382,10 @@ Definition fxg_decl (d : fdecl) : gdecl :=
   | FProcV c1 c2 x c3 ps c4 c5 vs1 d1 d2 y d3 t vs2 b c6 =>
       let o_vs := len (fl_prochead c1 c2 x c3 ps c4 c5) in
       let o_v := o_vs + len (flat_map fl_vardecl vs1) in
-      let o_v2 := o_v + len (ffl_var d1 d2 y d3 t) in
+      let o_v2 := o_v + len (ffl_vdecl d1 d2 y d3 t) in
       GProc {| pd_doc := c1; pd_name := Some (x_ident (len c1 + 1) c2 x);
                pd_params := x_sep fl_param x_param (len c1 + 1 + len c2 + 1 + len c3 + 1) ps;
-               pd_vars := x_vardecls o_vs vs1 ++ (fxg_var d1 d2 y d3 t, o_v) :: x_vardecls o_v2 vs2;
+               pd_vars := x_vardecls o_vs vs1 ++ (fxg_vdecl d1 d2 y d3 t, o_v) :: x_vardecls o_v2 vs2;
                pd_stmts := x_stmts (o_v2 + len (flat_map fl_vardecl vs2)) b;
                pd_info := mkinfo 0 (len (ffl_decl d)) |}
   | FProcC c1 c2 x c3 ps c4 c5 vs b =>
@@ -344,6 +407,7 @@ Definition fxg_prog (p : fprog) : program :=
      pg_info := mkinfo 0 (o + len (ffl_decl (fp_decl p)) + len (flat_map fl_decl (fp_post p))) |}.
 End Tree.
 
+Notation fx_args := (fxg_args e_real).
 Notation fx_stmt := (fxg_stmt e_real).
 Notation fx_stmts := (fxg_stmts e_real).
 Notation fx_decl := (fxg_decl e_real).
@@ -353,62 +417,46 @@ Notation fx0_stmts := (fxg_stmts e_none).
 Notation fx0_decl := (fxg_decl e_none).
 Notation fexpected0 := (fxg_prog e_none).
 
-(* ---- the faulty tokens are the original's with one token taken out ---- *)
-Definition ins {A} (n : nat) (x : A) (l : list A) : list A := firstn n l ++ x :: skipn n l.
-
-Lemma ins_end {A} (x : A) l : ins (len l) x l = l ++ [x].
-Proof. unfold ins. rewrite firstn_all, skipn_all. reflexivity. Qed.
-
-Lemma ins_app_l {A} n (x : A) l1 l2 : n <= len l1 -> ins n x (l1 ++ l2) = ins n x l1 ++ l2.
-Proof.
-  intros H. unfold ins. rewrite firstn_app, skipn_app. replace (n - len l1) with 0 by lia.
-  cbn [firstn skipn]. rewrite app_nil_r, <- app_assoc. reflexivity.
-Qed.
-
-Lemma ins_app_r {A} n (x : A) l1 l2 : ins (len l1 + n) x (l1 ++ l2) = l1 ++ ins n x l2.
-Proof.
-  unfold ins. rewrite firstn_app, skipn_app. replace (len l1 + n - len l1) with n by lia.
-  rewrite firstn_all2 by lia. rewrite skipn_all2 by lia. rewrite <- app_assoc. reflexivity.
-Qed.
-
-Lemma ins_pre {A} n m (x : A) pre l : n = len pre + m -> ins n x (pre ++ l) = pre ++ ins m x l.
-Proof. intros ->. apply ins_app_r. Qed.
-
-Lemma ins_mid {A} n (x : A) pre l : n = len pre -> ins n x (pre ++ l) = pre ++ x :: l.
-Proof. intros ->. rewrite <- (Nat.add_0_r (len pre)), ins_app_r. reflexivity. Qed.
-
-Lemma ins_length {A} n (x : A) l : len (ins n x l) = S (len l).
-Proof.
-  unfold ins. rewrite app_length. cbn [length]. rewrite Nat.add_succ_r, <- app_length, firstn_skipn. reflexivity.
-Qed.
-
-Lemma cm_len c : len (cm c) = len c.
-Proof. apply map_length. Qed.
-
+(* ---- the faulty tokens are the original's with one token taken out (ins: SynFaultsE.v) ---- *)
 Ltac flens :=
-  cbn [fl_var fl_fac fl_mul fl_add fl_cmp fl_type fl_stmt fl_stmts ffl_stmt ffl_stmts];
-  unfold o_cond, ffl_var, fl_prochead;
+  cbn [fl_var fl_fac fl_mul fl_add fl_cmp fl_type fl_stmt fl_stmts ffl_stmt ffl_stmts ffl_var ffl_fac ffl_mul ffl_add ffl_cmp];
+  unfold o_cond, ffl_vdecl, fl_prochead;
   repeat (rewrite app_length || rewrite cm_len || cbn [length]).
 
-Ltac norm_app := repeat (rewrite <- app_assoc || cbn [app]).
+Lemma fl_tail_app {A} (f : A -> list kind) l1 l2 : fl_tail f (l1 ++ l2) = fl_tail f l1 ++ fl_tail f l2.
+Proof. unfold fl_tail. apply flat_map_app. Qed.
 
-Lemma fl_var_pos v : 1 <= len (fl_var v).
-Proof. destruct v as [c x|v c1 e c2]; cbn [fl_var]; rewrite !app_length; cbn [length]; lia. Qed.
+Lemma fl_tail_cons {A} (f : A -> list kind) c a l : fl_tail f ((c, a) :: l) = cm c ++ Comma :: f a ++ fl_tail f l.
+Proof. unfold fl_tail. cbn [flat_map fst snd]. rewrite <- app_assoc. reflexivity. Qed.
 
-Lemma fl_cmp_pos e : 1 <= len (fl_cmp e).
+Lemma ffl_args_pos a : gap_args a < len (ffl_args a).
 Proof.
-  assert (Hf : forall f, 1 <= len (fl_fac f)).
-  { destruct f as [c l|v|c f|c1 e' c2]; cbn [fl_fac]; try (rewrite !app_length; cbn [length]; lia). apply fl_var_pos. }
-  assert (Hm : forall m, 1 <= len (fl_mul m)) by (destruct m; cbn [fl_mul]; [apply Hf | rewrite !app_length; cbn [length]; lia]).
-  assert (Ha : forall a, 1 <= len (fl_add a)) by (destruct a; cbn [fl_add]; [apply Hm | rewrite !app_length; cbn [length]; lia]).
-  destruct e; cbn [fl_cmp]; [apply Ha | rewrite !app_length; cbn [length]; lia].
+  destruct a as [e l|e0 pre c e post]; cbn [gap_args ffl_args]; pose proof (proj2 (proj2 (proj2 (proj2 ffl_expr_pos))) e);
+    rewrite !app_length; cbn [length]; rewrite ?app_length, ?cm_len; lia.
+Qed.
+
+Lemma ffl_args_ins a : ins (S (gap_args a)) (gk_args a) (ffl_args a) = fl_sep fl_cmp (orig_args a).
+Proof.
+  destruct a as [e l|e0 pre c e post]; cbn [gap_args gk_args ffl_args orig_args fl_sep];
+    pose proof (proj2 (proj2 (proj2 (proj2 ffl_expr_pos))) e).
+  - rewrite <- (proj2 (proj2 (proj2 (proj2 ffl_expr_ins))) e). rewrite ins_app_l by lia. reflexivity.
+  - rewrite fl_tail_app, fl_tail_cons.
+    rewrite <- (proj2 (proj2 (proj2 (proj2 ffl_expr_ins))) e).
+    replace (fl_cmp e0 ++ fl_tail fl_cmp pre ++ cm c ++ Comma :: ffl_cmp e ++ fl_tail fl_cmp post)
+      with ((fl_cmp e0 ++ fl_tail fl_cmp pre ++ cm c ++ [Comma]) ++ ffl_cmp e ++ fl_tail fl_cmp post) by (norm_app; reflexivity).
+    rewrite (ins_pre _ (S (gap_cmp e))) by (rewrite !app_length, cm_len; cbn [length]; lia).
+    rewrite ins_app_l by lia. norm_app. reflexivity.
 Qed.
 
 Lemma ffl_pos :
   (forall s, gap_stmt s < len (ffl_stmt s)) /\ (forall b, gap_stmts b < len (ffl_stmts b)).
 Proof.
-  apply fstmt_mutind; intros; cbn [gap_stmt gap_stmts]; flens; try lia;
-    match goal with e : acmp |- _ => pose proof (fl_cmp_pos e); lia end.
+  destruct ffl_expr_pos as (Pv & _ & _ & _ & Pc).
+  apply fstmt_mutind; intros; cbn [gap_stmt gap_stmts]; flens;
+    try match goal with e : acmp |- _ => pose proof (fl_cmp_pos e) end;
+    try match goal with e : fcmp |- _ => pose proof (Pc e) end;
+    try match goal with v : fvar |- _ => pose proof (Pv v) end;
+    try match goal with a : fargs |- _ => pose proof (ffl_args_pos a) end; lia.
 Qed.
 
 Lemma ffl_ins :
@@ -438,6 +486,34 @@ Proof.
     replace (ffl_stmt (FWhlP c1 c2 e b)) with ((cm c1 ++ KWhile :: cm c2 ++ LParen :: fl_cmp e) ++ fl_stmt b)
       by (cbn [ffl_stmt]; norm_app; reflexivity).
     rewrite ins_mid by (flens; lia). cbn [cm map]. norm_app. reflexivity.
+  - intros v c1 e c2. cbn [gap_stmt gk_stmt orig_stmt fl_stmt ffl_stmt]. rewrite <- (proj1 ffl_expr_ins v).
+    rewrite ins_app_l by (pose proof (proj1 ffl_expr_pos v); lia). reflexivity.
+  - intros v c1 e c2. cbn [gap_stmt gk_stmt orig_stmt fl_stmt]. rewrite <- (proj2 (proj2 (proj2 (proj2 ffl_expr_ins))) e).
+    replace (ffl_stmt (FAsgR v c1 e c2)) with ((fl_var v ++ cm c1 ++ [Assign]) ++ ffl_cmp e ++ cm c2 ++ [Semic])
+      by (cbn [ffl_stmt]; norm_app; reflexivity).
+    rewrite (ins_pre _ (S (gap_cmp e))) by (flens; lia).
+    rewrite ins_app_l by (pose proof (proj2 (proj2 (proj2 (proj2 ffl_expr_pos))) e); lia). norm_app. reflexivity.
+  - intros c1 c2 e c3 t. cbn [gap_stmt gk_stmt orig_stmt fl_stmt]. rewrite <- (proj2 (proj2 (proj2 (proj2 ffl_expr_ins))) e).
+    replace (ffl_stmt (FIfC c1 c2 e c3 t)) with ((cm c1 ++ KIf :: cm c2 ++ [LParen]) ++ ffl_cmp e ++ cm c3 ++ RParen :: fl_stmt t)
+      by (cbn [ffl_stmt]; norm_app; reflexivity).
+    rewrite (ins_pre _ (S (gap_cmp e))) by (flens; lia).
+    rewrite ins_app_l by (pose proof (proj2 (proj2 (proj2 (proj2 ffl_expr_pos))) e); lia). norm_app. reflexivity.
+  - intros c1 c2 e c3 t c4 s. cbn [gap_stmt gk_stmt orig_stmt fl_stmt]. rewrite <- (proj2 (proj2 (proj2 (proj2 ffl_expr_ins))) e).
+    replace (ffl_stmt (FIfEC c1 c2 e c3 t c4 s))
+      with ((cm c1 ++ KIf :: cm c2 ++ [LParen]) ++ ffl_cmp e ++ cm c3 ++ RParen :: fl_stmt t ++ cm c4 ++ KElse :: fl_stmt s)
+      by (cbn [ffl_stmt]; norm_app; reflexivity).
+    rewrite (ins_pre _ (S (gap_cmp e))) by (flens; lia).
+    rewrite ins_app_l by (pose proof (proj2 (proj2 (proj2 (proj2 ffl_expr_pos))) e); lia). norm_app. reflexivity.
+  - intros c1 c2 e c3 b. cbn [gap_stmt gk_stmt orig_stmt fl_stmt]. rewrite <- (proj2 (proj2 (proj2 (proj2 ffl_expr_ins))) e).
+    replace (ffl_stmt (FWhlC c1 c2 e c3 b)) with ((cm c1 ++ KWhile :: cm c2 ++ [LParen]) ++ ffl_cmp e ++ cm c3 ++ RParen :: fl_stmt b)
+      by (cbn [ffl_stmt]; norm_app; reflexivity).
+    rewrite (ins_pre _ (S (gap_cmp e))) by (flens; lia).
+    rewrite ins_app_l by (pose proof (proj2 (proj2 (proj2 (proj2 ffl_expr_pos))) e); lia). norm_app. reflexivity.
+  - intros c1 f c2 a c3 c4. cbn [gap_stmt gk_stmt orig_stmt fl_stmt]. rewrite <- ffl_args_ins.
+    replace (ffl_stmt (FCalA c1 f c2 a c3 c4)) with ((cm c1 ++ Ident f :: cm c2 ++ [LParen]) ++ ffl_args a ++ cm c3 ++ RParen :: cm c4 ++ [Semic])
+      by (cbn [ffl_stmt]; norm_app; reflexivity).
+    rewrite (ins_pre _ (S (gap_args a))) by (flens; lia).
+    rewrite ins_app_l by (pose proof (ffl_args_pos a); lia). norm_app. reflexivity.
   - intros c1 c2 e c3 t IH. cbn [orig_stmt fl_stmt gk_stmt]. rewrite <- IH.
     replace (ffl_stmt (FIfT c1 c2 e c3 t)) with ((cm c1 ++ KIf :: cm c2 ++ LParen :: fl_cmp e ++ cm c3 ++ [RParen]) ++ ffl_stmt t)
       by (cbn [ffl_stmt]; norm_app; reflexivity).
@@ -472,10 +548,10 @@ Lemma fl_prochead_eq c1 c2 x c3 ps c4 c5 vs b c6 :
   fl_decl (DProc c1 c2 x c3 ps c4 c5 vs b c6) = fl_prochead c1 c2 x c3 ps c4 c5 ++ flat_map fl_vardecl vs ++ fl_stmts b ++ cm c6 ++ [RCurly].
 Proof. unfold fl_prochead. cbn [fl_decl]. norm_app. reflexivity. Qed.
 
-Lemma fl_fvar d1 d2 y d3 t : fl_vardecl (fvar d1 d2 y d3 t) = ffl_var d1 d2 y d3 t ++ [Semic].
-Proof. unfold fl_vardecl, fvar, ffl_var. cbn [v_c1 v_c2 v_x v_c3 v_t v_c4 cm map]. norm_app. reflexivity. Qed.
+Lemma fl_fvar d1 d2 y d3 t : fl_vardecl (fvdecl d1 d2 y d3 t) = ffl_vdecl d1 d2 y d3 t ++ [Semic].
+Proof. unfold fl_vardecl, fvdecl, ffl_vdecl. cbn [v_c1 v_c2 v_x v_c3 v_t v_c4 cm map]. norm_app. reflexivity. Qed.
 
-Lemma ffl_var_pos d1 d2 y d3 t : 4 <= len (ffl_var d1 d2 y d3 t).
+Lemma ffl_vdecl_pos d1 d2 y d3 t : 4 <= len (ffl_vdecl d1 d2 y d3 t).
 Proof. assert (1 <= len (fl_type t)) by (destruct t; cbn [fl_type]; rewrite !app_length; cbn [length]; lia). flens. lia. Qed.
 
 Lemma gap_decl_lt d : gap_decl d < len (ffl_decl d).
@@ -483,7 +559,7 @@ Proof.
   destruct d as [c1 c2 x c3 ps c4 c5 vs b c6|c1 c2 x c3 ps c4 c5 vs1 d1 d2 y d3 t vs2 b c6|c1 c2 x c3 ps c4 c5 vs b|c1 c2 x c3 t];
     cbn [gap_decl ffl_decl].
   - pose proof (proj2 ffl_pos b). rewrite !app_length. lia.
-  - pose proof (ffl_var_pos d1 d2 y d3 t). rewrite !app_length. lia.
+  - pose proof (ffl_vdecl_pos d1 d2 y d3 t). rewrite !app_length. lia.
   - assert (1 <= len (fl_prochead c1 c2 x c3 ps c4 c5)) by (flens; lia). rewrite !app_length. lia.
   - rewrite !app_length. cbn [length]. lia.
 Qed.
@@ -497,9 +573,9 @@ Proof.
       with ((fl_prochead c1 c2 x c3 ps c4 c5 ++ flat_map fl_vardecl vs) ++ ffl_stmts b ++ cm c6 ++ [RCurly]) by (norm_app; reflexivity).
     rewrite (ins_pre _ (S (gap_stmts b))) by (rewrite app_length; lia).
     rewrite ins_app_l by (pose proof (proj2 ffl_pos b); lia). norm_app. reflexivity.
-  - rewrite fl_prochead_eq, flat_map_app. cbn [flat_map]. rewrite fl_fvar. cbn [ffl_decl gap_decl]. pose proof (ffl_var_pos d1 d2 y d3 t).
-    replace (fl_prochead c1 c2 x c3 ps c4 c5 ++ flat_map fl_vardecl vs1 ++ ffl_var d1 d2 y d3 t ++ flat_map fl_vardecl vs2 ++ fl_stmts b ++ cm c6 ++ [RCurly])
-      with ((fl_prochead c1 c2 x c3 ps c4 c5 ++ flat_map fl_vardecl vs1 ++ ffl_var d1 d2 y d3 t) ++ flat_map fl_vardecl vs2 ++ fl_stmts b ++ cm c6 ++ [RCurly])
+  - rewrite fl_prochead_eq, flat_map_app. cbn [flat_map]. rewrite fl_fvar. cbn [ffl_decl gap_decl]. pose proof (ffl_vdecl_pos d1 d2 y d3 t).
+    replace (fl_prochead c1 c2 x c3 ps c4 c5 ++ flat_map fl_vardecl vs1 ++ ffl_vdecl d1 d2 y d3 t ++ flat_map fl_vardecl vs2 ++ fl_stmts b ++ cm c6 ++ [RCurly])
+      with ((fl_prochead c1 c2 x c3 ps c4 c5 ++ flat_map fl_vardecl vs1 ++ ffl_vdecl d1 d2 y d3 t) ++ flat_map fl_vardecl vs2 ++ fl_stmts b ++ cm c6 ++ [RCurly])
       by (norm_app; reflexivity).
     rewrite ins_mid by (rewrite !app_length; lia). norm_app. reflexivity.
   - rewrite fl_prochead_eq. pose proof (gap_decl_lt (FProcC c1 c2 x c3 ps c4 c5 vs b)) as Hlt. cbn [gap_decl] in *.
